@@ -1585,4 +1585,65 @@ theorem specGraphFrom_congr (k0 : Nat) (t1 t2 : List (String × String))
     specGraphFrom k0 t1 names labels circ = specGraphFrom k0 t2 names labels circ := by
   rw [specGraphFrom_eq_shift, specGraphFrom_eq_shift, specGraph_congr t1 t2 h]
 
+
+theorem strand_resnames (names : List String) (labels : List Attrs) (circ : Option Attrs) :
+    (strandGraph names labels circ).nodes.map (·.resname) = names := by
+  apply List.ext_getElem
+  · simp [strandGraph]
+  · intro i h1 h2
+    simp [strandGraph]
+
+theorem final_resnames (tbl : List (String × String)) (names : List String) (labels : List Attrs)
+    (circ : Option Attrs) (hk : ∀ nm ∈ names, (lookup tbl nm).isSome) :
+    (finalGraph tbl names labels circ).nodes.map (fun x => some x.resname) =
+      names.map some ++ names.reverse.map (lookup tbl) := by
+  have h := List.take_append_drop names.length (finalGraph tbl names labels circ).nodes
+  rw [← h, List.map_append, final_second_names tbl names labels circ hk, final_nodes_take]
+  congr 1
+  rw [← strand_resnames names labels circ, List.map_map]
+  rw [strand_resnames]
+  rfl
+
+theorem shiftKeys_resnames {β} (g : RGraph) (k : Nat) (f : String → β) :
+    (g.shiftKeys k).nodes.map (fun x => f x.resname) = g.nodes.map (fun x => f x.resname) := by
+  simp [RGraph.shiftKeys]
+
+/-- `gen_params … -dsdna`: whichever way the strand was given, the residue graph handed to
+`MapToMolecule` carries the names `names ++ map comp (reverse names)`; without `-dsdna`, `names`. -/
+theorem genParams_dsdna (tbl : List (String × String)) (inp : SeqInput)
+    (hn : 1 ≤ inp.names.length) (hc : inp.circ.isSome → 3 ≤ inp.names.length)
+    (hk : ∀ nm ∈ inp.names, (lookup tbl nm).isSome) :
+    (∃ g, genParamsDsdna tbl inp true = .ok g ∧
+        g.nodes.map (fun x => some x.resname) = inp.names.map some ++ inp.names.reverse.map (lookup tbl)) ∧
+    (∃ g, genParamsDsdna tbl inp false = .ok g ∧ g.nodes.map (·.resname) = inp.names) := by
+  cases inp with
+  | seq names =>
+    simp only [SeqInput.names, SeqInput.circ] at hn hc hk
+    constructor
+    · refine ⟨(finalGraph tbl names [] none).shiftKeys 0, ?_, ?_⟩
+      · simp only [genParamsDsdna, SeqInput.graph, if_true]
+        rw [strandGraphFrom_eq_shift, complement_shift, complement_eq_final tbl names [] none hn hc hk]; rfl
+      · rw [shiftKeys_resnames]; exact final_resnames tbl names [] none hk
+    · refine ⟨_, rfl, ?_⟩
+      simp only [SeqInput.graph, SeqInput.names]
+      rw [strandGraphFrom_eq_shift]
+      have := shiftKeys_resnames (strandGraph names [] none) 0 id
+      simp only [id] at this
+      rw [this]
+      exact strand_resnames names [] none
+  | seqFile k0 names labels circ =>
+    simp only [SeqInput.names, SeqInput.circ] at hn hc hk
+    constructor
+    · refine ⟨(finalGraph tbl names labels circ).shiftKeys k0, ?_, ?_⟩
+      · simp only [genParamsDsdna, SeqInput.graph, if_true]
+        rw [strandGraphFrom_eq_shift, complement_shift, complement_eq_final tbl names labels circ hn hc hk]; rfl
+      · rw [shiftKeys_resnames]; exact final_resnames tbl names labels circ hk
+    · refine ⟨_, rfl, ?_⟩
+      simp only [SeqInput.graph, SeqInput.names]
+      rw [strandGraphFrom_eq_shift]
+      have := shiftKeys_resnames (strandGraph names labels circ) k0 id
+      simp only [id] at this
+      rw [this]
+      exact strand_resnames names labels circ
+
 end PolyplyVerif.Proofs.Dna
